@@ -173,6 +173,21 @@ class Program:
                     self._add_function(mod, st, None, st.name, None)
                 elif isinstance(st, ast.ClassDef):
                     self._add_class(mod, st)
+        # lazy imports: `global X` + `import X` inside a function rebinds the module-level placeholder X = None
+        for mod in self.modules.values():
+            for fn in ast.walk(mod.tree):
+                if not isinstance(fn, (ast.FunctionDef, ast.AsyncFunctionDef)):
+                    continue
+                globs = {n for st in ast.walk(fn) if isinstance(st, ast.Global) for n in st.names}
+                if not globs:
+                    continue
+                for st in ast.walk(fn):
+                    if isinstance(st, ast.Import):
+                        for a in st.names:
+                            local = a.asname or a.name.split(".")[0]
+                            if local in globs:
+                                mod.imports[local] = a.name if a.asname else a.name.split(".")[0]
+                                mod.assigns.pop(local, None)
         # resolve bases after every module is indexed
         for ci in self.classes.values():
             mod = self.modules[ci.module]
